@@ -100,6 +100,10 @@ def problem(name, dtype):
         def f(t, y):
             return np.ones_like(y)
         return f
+    if name == "grow":         # q' = p, p' = q: grows like exp(t); run long enough with a fixed step the increments overflow (no error is raised)
+        def f(t, y):
+            return np.stack([y[1], y[0]])
+        return f
     if name == "decay":        # y' = -y: the solution decays by orders of magnitude (spec/Accuracy.tla supplies an enclosure of exp(-T))
         def f(t, y):
             return -y
